@@ -752,6 +752,22 @@ func (s Emitter) WriteExpression(output io.Writer, expression cypher.Expression)
 		}
 
 	case *cypher.KindMatcher:
+		if typedExpression.IsExclusive && len(typedExpression.Kinds) > 1 {
+			// An exclusive matcher requires every listed kind: n:A:B. Writing it as a disjunction would turn it into
+			// "any of" when the text is parsed again.
+			if err := s.WriteExpression(output, typedExpression.Reference); err != nil {
+				return err
+			}
+
+			for _, matcher := range typedExpression.Kinds {
+				if _, err := io.WriteString(output, ":"+matcher.String()); err != nil {
+					return err
+				}
+			}
+
+			break
+		}
+
 		if len(typedExpression.Kinds) > 1 {
 			if _, err := io.WriteString(output, "("); err != nil {
 				return err
